@@ -145,10 +145,6 @@ def run(ctx):
                                timeout=1200)
     ctx._phase("gen", t0)
     jobs = [(i + 1, extra["cfg"], drv.path_ops(path), {}) for i, (extra, path) in enumerate(paths)]
-    with drv.phase(ctx, "execute"):
-        traces = framework.pool_map(_job, jobs)
-    with drv.phase(ctx, "validate"):
-        ctx.validate(FAM, "Trace_HttpWriter", "Trace_HttpWriter.cfg", traces, label="s2c", sig_fn=sig_of)
     ctx.cov["exhaustive"] = True
     # 3. code -> spec: random longer programs, arbitrary bytes, partial socket writes
     n = ctx.pick(1500, 20000)
@@ -158,9 +154,11 @@ def run(ctx):
         rng = random.Random(ctx.seed * 1000003 + i)
         cfg, ops, kw = random_program(rng)
         rjobs.append((base + i + 1, cfg, ops, kw))
-    with drv.phase(ctx, "random"):
-        rtraces = framework.pool_map(_job, rjobs)
-        ctx.validate(FAM, "Trace_HttpWriter", "Trace_HttpWriter.cfg", rtraces, label="c2s", sig_fn=sig_of)
+    with drv.phase(ctx, "execute"):
+        traces = framework.pool_map(_job, jobs + rjobs)
+    with drv.phase(ctx, "validate"):
+        ctx.validate(FAM, "Trace_HttpWriter", "Trace_HttpWriter.cfg", traces, label="s2c+c2s",
+                     sig_fn=drv.with_kind(sig_of, base + 1))
     # 4. HEAD vs GET under the gzip output transform (Content-Length of a HEAD = length of the body a GET carries)
     from checks import C29
     with drv.phase(ctx, "head_vs_get"):
